@@ -433,3 +433,6 @@ def run_for_roundtrip(ctx: Ctx):
     c.check_hops()
     c.check_constructors()
     c.check_path_terms()
+    # the document is text: a file written in one encoding and read in another does not come back equal
+    ctx.rule("R18.5", "the document is written and read as UTF-8", 2)
+    c.check_encoding()
